@@ -211,7 +211,7 @@ func init() {
 				if hasObj {
 					obj = gen.RandObj(r, n, 0, 3)
 				}
-				c := gen.APICase(front, n, false, cons, hasObj, obj, fmtCfg(r, 0), []gen.M{{"op": "print", "printer": p, "solveFirst": solveFirst, "assumeFirst": r.Intn(3) == 0, "seed": r.Intn(1 << 10)}})
+				c := gen.APICase(front, n, false, cons, hasObj, obj, fmtCfg(r, 0), []gen.M{{"op": "print", "printer": p, "solveFirst": solveFirst, "assumeFirst": r.Intn(3) == 0, "printedBefore": r.Intn(3) == 0, "seed": r.Intn(1 << 10)}})
 				c["drv"] = "fmt"
 				c["kind"] = "api"
 				if hasObj && r.Intn(5) == 0 {
